@@ -85,6 +85,33 @@ MUTANTS = [
     ("c10-datum-list-iter-skips-dot-marker", ["C10"], DA, "            ListCursor::Dot(value, info) => {\n                self.0 = ListCursor::Rest(value, info);\n                None\n            }", "            ListCursor::Dot(value, info) => {\n                self.0 = ListCursor::Exhausted;\n                Some(Ref { value, info })\n            }", "kill"),
     ("c10-datum-quote-eof-code", ["C10"], PM, "                let quoted = self\n                    .next_datum()?\n                    .ok_or_else(|| self.peek_error(ErrorCode::EofWhileParsingList))?;", "                let quoted = self\n                    .next_datum()?\n                    .ok_or_else(|| self.peek_error(ErrorCode::EofWhileParsingValue))?;", "kill"),
     ("c10-datum-vector-no-depth-charge", ["C10", "C03"], PM, "                let ret = self.parse_vector_meta(close);\n\n                self.remaining_depth += 1;", "                let ret = self.parse_vector_meta(close);\n", "kill"),
+    # ---- C03
+    ("c03-vector-depth-not-restored", ["C03"], PM, "                let ret = self.parse_vector(close);\n\n                self.remaining_depth += 1;", "                let ret = self.parse_vector(close);\n", "kill"),
+    ("c03-quote-uncharged-again", ["C03"], PM, "                self.enter_nested()?;\n                let datum = self.next_value();\n                self.remaining_depth += 1;", "                let datum = self.next_value();", "kill"),
+    ("c03-utf8-length-shift", ["C03", "C17"], PR, "        0b1110_0000..=0b1111_0111 => (initial - 0b1100_0000) >> 4,", "        0b1110_0000..=0b1111_0111 => (initial - 0b1100_0000) >> 3,", "kill"),
+    ("c03-hex-escape-guard-removed", ["C03"], PR, "fn decode_r6rs_hex_escape<'de, R: Read<'de>>(read: &mut R) -> Result<u32> {\n    let mut n = 0;\n    loop {\n        let next = next_or_eof(read)?;\n        if next == b';' {\n            return Ok(n);\n        }\n        match decode_hex_val(next) {\n            None => return error(read, ErrorCode::EofWhileParsingString),\n            Some(val) => {\n                if n >= (1 << 24) {", "fn decode_r6rs_hex_escape<'de, R: Read<'de>>(read: &mut R) -> Result<u32> {\n    let mut n = 0;\n    loop {\n        let next = next_or_eof(read)?;\n        if next == b';' {\n            return Ok(n);\n        }\n        match decode_hex_val(next) {\n            None => return error(read, ErrorCode::EofWhileParsingString),\n            Some(val) => {\n                if n >= (1 << 30) {", "kill"),
+    ("c03-needs-escape-unreachable", ["C03"], PR, "fn needs_escape(c: u8) -> bool {\n    c == b'\\\\' || c == b'\"'", "fn needs_escape(c: u8) -> bool {\n    c == b'\\\\' || c == b'\"' || c == 0", "kill"),
+    # ---- C11
+    ("c11-start-before-whitespace", ["C11"], DA, "        let (quoted_value, quoted_info) = quoted.into_inner();\n        let quoted_end = quoted_info.span().end();", "        let (quoted_value, quoted_info) = quoted.into_inner();\n        let quoted_end = quoted_info.span().start();", "kill"),
+    ("c11-linecol-col-reset-to-one", ["C11"], PI, "                self.line += 1;\n                self.col = 0;", "                self.line += 1;\n                self.col = 1;", "kill"),
+    ("c11-slice-columns-count-chars", ["C11"], PR, "                _ => {\n                    position.column += 1;\n                }", "                c => {\n                    if c & 0xC0 != 0x80 {\n                        position.column += 1;\n                    }\n                }", "kill"),
+    ("c11-io-position-counts-peeked-again", ["C11"], PR, "            Some(_) => self.ch_position,\n            None => self.iter_position(),", "            Some(_) => self.iter_position(),\n            None => self.iter_position(),", "kill"),
+    # ---- C12
+    ("c12-cr-not-whitespace", ["C12"], PM, "                Some(b' ') | Some(b'\\n') | Some(b'\\t') | Some(b'\\r') | Some(0x0C) => {\n                    self.eat_char();", "                Some(b' ') | Some(b'\\n') | Some(b'\\t') | Some(0x0C) => {\n                    self.eat_char();", "kill"),
+    ("c12-semicolon-not-symbol-terminator-in-slice", ["C12", "C06"], PR, "                | Some(b')') | Some(b']') | Some(b'(') | Some(b'[') | Some(b';')) => {\n                    if scratch.is_empty() {", "                | Some(b')') | Some(b']') | Some(b'(') | Some(b'[')) => {\n                    if scratch.is_empty() {", "kill"),
+    ("c12-stuck-byte-not-consumed", ["C12"], PM, "                    self.eat_char();\n                    return Err(err);", "                    return Err(err);", "kill"),
+    ("c12-expect-end-ignores-comment", ["C12"], PM, "        match self.parse_whitespace()? {\n            Some(_) => Err(self.peek_error(ErrorCode::TrailingCharacters)),\n            None => Ok(()),", "        match self.peek()? {\n            Some(b' ') | None => Ok(()),\n            Some(_) => Err(self.peek_error(ErrorCode::TrailingCharacters)),", "kill"),
+    # ---- C13
+    ("c13-char-printed-with-semicolon", ["C13", "C01"], PT, "        write!(writer, \"#\\\\x{:x}\", n)", "        write!(writer, \"#\\\\x{:x};\", n)", "kill"),
+    ("c13-symbol-printed-in-bars", ["C13"], PT, "        // TODO: We might need to escape and/or use pipe notation.\n        writer.write_all(name.as_bytes())", "        // TODO: We might need to escape and/or use pipe notation.\n        if name.contains('#') {\n            writer.write_all(b\"|\")?;\n            writer.write_all(name.as_bytes())?;\n            return writer.write_all(b\"|\");\n        }\n        writer.write_all(name.as_bytes())", "kill"),
+    # ---- C17
+    ("c17-slice-as-str-unchecked", ["C17"], PR, "    str::from_utf8(slice).or_else(|_| error(read, ErrorCode::InvalidUnicodeCodePoint))", "    let _ = read;\n    Ok(unsafe { str::from_utf8_unchecked(slice) })", "kill"),
+    ("c17-r6rs-escape-pushes-raw-byte", ["C17"], PR, "            scratch.extend_from_slice(c.encode_utf8(&mut [0_u8; 4]).as_bytes());\n        }\n        _ => {\n            return error(read, ErrorCode::InvalidEscape);", "            if (c as u32) < 256 {\n                scratch.push(c as u32 as u8);\n            } else {\n                scratch.extend_from_slice(c.encode_utf8(&mut [0_u8; 4]).as_bytes());\n            }\n        }\n        _ => {\n            return error(read, ErrorCode::InvalidEscape);", "kill"),
+    # ---- C19
+    ("c19-eof-string-as-syntax", ["C19"], PE, "            | ErrorCode::EofWhileParsingString\n", "", "kill"),
+    ("c19-peek-error-index-plus-two", ["C19"], PR, "        self.position_of_index(cmp::min(self.slice.len(), self.index + 1))", "        self.position_of_index(cmp::min(self.slice.len(), self.index + 2))", "survive"),
+    ("c19-location-swapped", ["C19"], PE, "                location: Some(Location { line, column }),", "                location: Some(Location { line: column, column: line }),", "kill"),
+    ("c19-expect-ident-eof-as-syntax-again", ["C19"], PM, "                None => return Err(self.error(ErrorCode::EofWhileParsingValue)),\n            }\n        }\n\n        Ok(())", "                None => return Err(self.error(ErrorCode::ExpectedSomeIdent)),\n            }\n        }\n\n        Ok(())", "kill"),
 ]
 
 
